@@ -397,7 +397,7 @@ def run(check):
     r_a.ok('PICKLE_SAFE is never written outside its definition', util.relpath)
 
   # ------------------------------------------------------------------ hooked
-  r_h = check.rule('R-C13-hooked', 2, 'the safe class really routes global lookups through its find_class')
+  r_h = check.rule('R-C13-hooked', 1, 'the safe class really routes global lookups through its find_class')
   for sc in safe_classes:
     loads = sc.methods.get('loads')
     if loads is None:
